@@ -45,6 +45,10 @@ var replacements = map[string]string{
 	"(github.com/cosmos/cosmos-sdk/x/staking/keeper.msgServer).Undelegate":                    "SKUndelegate",
 	"(github.com/cosmos/cosmos-sdk/x/staking/keeper.msgServer).BeginRedelegate":               "SKBeginRedelegate",
 	"(github.com/cosmos/cosmos-sdk/x/distribution/keeper.msgServer).WithdrawDelegatorReward":  "DKWithdrawDelegatorReward",
+	"(github.com/cosmos/cosmos-sdk/x/staking/keeper.Keeper).GetAllDelegatorDelegations":       "SKGetAllDelegatorDelegations",
+	"(github.com/cosmos/cosmos-sdk/x/staking/keeper.Keeper).Validator":                        "SKValidator",
+	"(github.com/cosmos/cosmos-sdk/x/staking/keeper.Keeper).IterateLastValidators":            "SKIterateLastValidators",
+	"(github.com/cosmos/cosmos-sdk/x/distribution/keeper.Querier).DelegationTotalRewards":     "DKDelegationTotalRewards",
 	"github.com/cosmos/cosmos-sdk/types.ParseCoinsNormalized":                                 "ParseCoinsNormalized",
 	"encoding/json.Marshal":                                                                    "JsonMarshal",
 	"github.com/EscanBE/evermint/v12/x/cpc/eip712.VerifySignature":                            "Eip712VerifySignature",
